@@ -602,12 +602,12 @@ func glue(r *Rng, st *Stats, n int, tier string, printed []printedTree) {
 			}
 			o := p.c.v.opts(false)
 			o.Format = api.FormatDefault
-			_, e := transform(wrapped[i], o)
+			_, e, mark := transformLoc(wrapped[i], o)
 			if e == "" {
 				st.Histogram["excluded: top-level await ambiguity (accepted inside a function body)"]++
 				continue
 			}
-			if why := knownRejection(&glueCase{src: wrapped[i], err1: e}, "script"); why != "" {
+			if why := knownRejection(&glueCase{src: wrapped[i], err1: e, mark1: mark}, "script"); why != "" {
 				st.Histogram["excluded: "+why]++
 				continue
 			}
@@ -700,7 +700,7 @@ func clip(s string, n int) string {
 // failC records a failure; with C13_DUMP=<file> every failure is also appended
 // to that file as one JSON object per line (calibration aid, unlimited count)
 func failC(st *Stats, what string, input, got, expect interface{}) {
-	st.Fail(what, input, got, expect)
+	recordFail(st, what, input, got, expect)
 	if p := os.Getenv("C13_DUMP"); p != "" {
 		f, err := os.OpenFile(p, os.O_APPEND|os.O_CREATE|os.O_WRONLY, 0o644)
 		if err == nil {
@@ -716,7 +716,24 @@ func failC(st *Stats, what string, input, got, expect interface{}) {
 // whose location is the start of the target, this is the target expression
 func exprPrefixAt(s string) string {
 	depth := 0
-	for i := 0; i < len(s); i++ {
+	start := 0
+	if len(s) > 0 && s[0] == '/' {
+		// the target starts with a regular expression literal: skip it
+		inClass := false
+		j := 1
+		for j < len(s) && s[j] != '\n' && (inClass || s[j] != '/') {
+			if s[j] == '\\' {
+				j++
+			} else if s[j] == '[' {
+				inClass = true
+			} else if s[j] == ']' {
+				inClass = false
+			}
+			j++
+		}
+		start = j + 1
+	}
+	for i := start; i < len(s); i++ {
 		c := s[i]
 		switch {
 		case c == '"' || c == '\'' || c == '`':
@@ -746,9 +763,32 @@ func exprPrefixAt(s string) string {
 			return s[:j]
 		case depth == 0 && i+1 < len(s) && (c == '+' && s[i+1] == '+' || c == '-' && s[i+1] == '-') && i > 0:
 			return s[:i]
+		case depth == 0 && c == '\n' && i > 0:
+			// a line break followed by the start of another operand ends the target (ASI)
+			j := i
+			for j < len(s) && (s[j] == '\n' || s[j] == ' ' || s[j] == '\t') {
+				j++
+			}
+			if j < len(s) && (s[j] == '_' || s[j] == '$' || (s[j] >= '0' && s[j] <= '9') || (s[j] >= 'a' && s[j] <= 'z') || (s[j] >= 'A' && s[j] <= 'Z') || s[j] >= 0x80 || s[j] == '\\') {
+				return s[:i]
+			}
+		case depth == 0 && i > 0 && strings.ContainsRune("*/%<>&|^?:", rune(c)):
+			return s[:i]
+		case depth == 0 && i > 0 && (c == '+' || c == '-') && !(i+1 < len(s) && s[i+1] == c):
+			return s[:i]
 		case depth == 0 && (strings.HasPrefix(s[i:], " in ") || strings.HasPrefix(s[i:], " of ") || strings.HasPrefix(s[i:], "\nin ") || strings.HasPrefix(s[i:], "\nof ")):
 			return s[:i]
 		}
 	}
 	return s
+}
+
+// hlib's Stats.Fail keeps at most 20 failures; the known-finding replays alone are close to
+// that, so failures are recorded directly (same structure) with a larger cap, which keeps
+// room for new failing inputs after the replays.
+func recordFail(st *Stats, what string, input, got, expect interface{}) {
+	if len(st.Failures) < 60 {
+		st.Failures = append(st.Failures, Failure{What: what, Input: input, Got: got, Expect: expect})
+	}
+	st.Histogram["FAIL:"+what]++
 }
